@@ -24,7 +24,15 @@ def main():
             tr = vlib.regen()
         for k, v in tr.items():
             print('translator', k, 'ok' if v is None else 'FAILED: ' + v)
-        b = vlib.coq_build(['all'], timeout=7000)
+        # build what the claimed checks need (work-in-progress files of unclaimed properties are not part of the setup)
+        man = json.load(open(os.path.join(vlib.VERIF, 'MANIFEST.json')))
+        targets = []
+        for c in man['checks']:
+            pid = c['property_id']
+            targets.append('Props/%s.vo' % pid)
+            mod = importlib.import_module('props.' + pid.lower())
+            targets += list(getattr(mod, 'EXTRA_TARGETS', []))
+        b = vlib.coq_build(sorted(set(targets)), timeout=7000)
         print(b['log'][-3000:] if not b['ok'] else 'coq build ok in %.0fs' % b['wall_s'])
         bad = vlib.grep_gate()
         for x in bad:
